@@ -11,7 +11,13 @@ package fs
 // ---- reader ----------------------------------------------------------------
 // Raw lines travel as non-nil buffers; delivered lines are non-nil and carry a
 // non-nil content buffer.
+// Which filter runs (C03): the context filter whenever any of max / before /
+// after is set, with exactly the caller's settings; the plain filter only when
+// none is; there is no third way through.
 //@ func (*readFile).filter
+//@   calls-only (*readFile).filterWithLContext, (*readFile).filterWithoutLContext, (LContext).Has
+//@   at-call filterWithLContext [with-the-callers-settings] arg2 == ltx && (ltx.MaxCount > 0 || ltx.BeforeContext > 0 || ltx.AfterContext > 0)
+//@   at-call filterWithoutLContext [only-without-any-setting] !(ltx.MaxCount > 0 || ltx.BeforeContext > 0 || ltx.AfterContext > 0)
 //@   requires [regex-usable] len(re.flags) >= 1 && implies(re.flags[0] == regex.Default || re.flags[0] == regex.Invert, re.re != nil)
 //@   chaninv rawLines [raw-nonnil] elem != nil
 //@   chaninv lines [line-wellformed] elem != nil && elem.Content != nil
